@@ -349,6 +349,20 @@ theorem C10_pk_is_condition (s : Schema) (hk : KeysDistinct s) (sel om : List Co
   have hnz' : f.name ∈ nz := by simpa using hnz
   exact ⟨f.dbName, mem_dbNames.2 ⟨f, hf, hne, rfl⟩, by simp [lookUp_self hk hf hne, hpk, hnz']⟩
 
+/-! ### exactly the targeted rows: `Save` and the chain's conditions (finding F18) -/
+
+/-- FINDING F18 (counterexample, kernel-checked): `Where(cond).Save(&v)` writes the existing row carrying v's key
+    although that row does not satisfy `cond` (0-row UPDATE ⇒ upsert fallback ignores the conditions) -/
+theorem C10_save_rows_counterexample : saveWritesRow true false false = true := by decide
+
+/-- outside the pattern of F18 (the row satisfies the conditions, or a Select is present, or no such row exists)
+    `Save` writes the row carrying the key only if it exists and satisfies the chain's conditions -/
+theorem C10_save_rows_partial (rowExists condHolds selectedUpdate : Bool)
+    (hpat : ¬ (rowExists = true ∧ condHolds = false ∧ selectedUpdate = false))
+    (hw : saveWritesRow rowExists condHolds selectedUpdate = true) : rowExists = true ∧ condHolds = true := by
+  revert hpat hw
+  cases rowExists <;> cases condHolds <;> cases selectedUpdate <;> simp [saveWritesRow]
+
 /-! ### non-vacuity and concrete instances (kernel-evaluated) -/
 
 def exSchema : Schema :=
